@@ -43,4 +43,26 @@ pub(crate) mod verif_mem {
     pub(crate) fn num_roots<T: 'static + GcManaged + ?Sized>(gc: &Gc<T>) -> usize {
         gc.gc_box().num_roots.get()
     }
+
+    /// A `GcBox` by value: harnesses keep it in a local of the proof function and point a `Gc` at it
+    /// (`Placed::gc`). Unlike a leaked `Box`, a local is a typed CBMC object, so field accesses through
+    /// the `Gc` stay field-sensitive instead of becoming byte-level updates of an untyped heap block
+    /// (measured: one stack push on a boxed fiber costs 140k SAT variables, on a placed one far less).
+    /// The value must not be moved after `gc()` has been called.
+    pub(crate) struct Placed<T: 'static + GcManaged>(GcBox<T>);
+    impl<T: 'static + GcManaged> Placed<T> {
+        pub(crate) fn new(data: T) -> Self {
+            Placed(GcBox {
+                colour: Cell::new(Colour::White),
+                num_roots: Cell::new(0),
+                _pin: PhantomPinned,
+                data,
+            })
+        }
+        pub(crate) fn gc(&mut self) -> Gc<T> {
+            Gc {
+                ptr: unsafe { GcBoxPtr::new_unchecked(&mut self.0 as *mut GcBox<T>) },
+            }
+        }
+    }
 }
